@@ -189,6 +189,10 @@ pub enum Op {
     /// create a join future, poll it up to `polls` times, then keep it (un-polled) in a new slot; a later
     /// `Join` on that slot resumes it
     JoinPark { slot: u16, polls: u8 },
+    /// create a `Sender::send` future (it is `'static`), poll it `polls` times, keep it in a new slot
+    SendPark { slot: u16, script: Vec<PStep>, polls: u8 },
+    /// await a parked send future to completion
+    AwaitParked { slot: u16 },
     Query { slot: u16, running: bool },
     Yield,
     Sleep(u64),
